@@ -306,10 +306,23 @@ def parse_proxy_headers(
     if client_addr:
         if ":" in client_addr and client_addr[-1] != "]":
             addr, port = client_addr.rsplit(":", 1)
-            environ["REMOTE_ADDR"] = strip_brackets(addr.strip())
-            environ["REMOTE_PORT"] = port.strip()
         else:
-            environ["REMOTE_ADDR"] = strip_brackets(client_addr.strip())
+            addr, port = client_addr, None
+
+        addr = addr.strip()
+
+        if not addr:
+            # e.g. Forwarded: for=":80" -- a port without an address
+            raise MalformedProxyHeader(
+                "Forwarded" if forwarded else "X-Forwarded-For",
+                "empty client address",
+                client_addr,
+            )
+
+        environ["REMOTE_ADDR"] = strip_brackets(addr)
+
+        if port is not None:
+            environ["REMOTE_PORT"] = port.strip()
         environ["REMOTE_HOST"] = environ["REMOTE_ADDR"]
 
     return untrusted_headers
